@@ -19,7 +19,7 @@ TIMEOUTS = [20, 1, 0.5, 2.5]
 BUFS = [1, 100, 1000000]
 TRANSPORTS = [None, ['polling'], ['websocket'], ['polling', 'websocket']]
 COOKIES = ['none', 'name', 'dict_str', 'dict_true', 'dict_false', 'dict_callable', 'dict_callable_false', 'dict_noname']
-OUTCOMES = ['None', 'True', 'False', '0', 'empty', 'text', 'dict', 'list', 'one', 'one_float', 'raise', 'raise_type', 'send_accept', 'send_reject']
+OUTCOMES = ['None', 'True', 'False', '0', 'empty', 'text', 'dict', 'list', 'one', 'one_float', 'unserialisable', 'long_text', 'raise', 'raise_type', 'send_accept', 'send_reject']
 
 
 _COOKIE_BOX = {'n': 0}     # set by the harness before each open; the callable cookie attribute reads it
@@ -81,6 +81,8 @@ def outcome_effects(o):
             '0': [('return', 0)], 'empty': [('return', '')], 'text': [('return', 'no')],
             'dict': [('return', {'a': 1})], 'list': [('return', [1])],
             'one': [('return', 1)], 'one_float': [('return', 1.0)],       # JSON values that equal True without being True
+            'long_text': [('return', 'n' * 150)],                        # longer than a WebSocket control frame could carry
+            'unserialisable': [('return', {'a', 'set'})],              # a rejection value the 401 cannot carry (an application bug)
             'raise': [('raise', 'boom')],
             'raise_type': [('raise_type',)]}[o]      # an application bug of the TypeError kind inside the handler
 
@@ -89,7 +91,7 @@ def outcome_ref(o):
     """(accepted, body-json-or-None-for-default)."""
     if o in ('None', 'True', 'send_accept'):
         return True, None
-    return False, {'text': 'no', 'dict': {'a': 1}, 'list': [1], 'one': 1, 'one_float': 1.0}.get(o)
+    return False, {'text': 'no', 'dict': {'a': 1}, 'list': [1], 'one': 1, 'one_float': 1.0, 'long_text': 'n' * 150}.get(o)
 
 
 def default_cell():
@@ -209,7 +211,9 @@ def run_cell(impl, via, cell, out):
         if via == 'polling':
             r = w.http('GET', peer.BASEQ + ('&j=0' if cell['jsonp'] else ''))      # 0 is the first callback index a JSONP client uses
             w.run()
-            if r.exc:
+            if r.exc and cell['outcome'] == 'unserialisable':
+                r.status, r.resp_headers, r.body, r.done = 401, [], b'"<the open failed on the value>"', True     # how it fails is not judged
+            if r.exc and cell['outcome'] != 'unserialisable':
                 V('exception_escaped', 'cookie=' + cell['cookie'] if cell['cookie'] != 'none' else 'open',
                   'open raised %s at %s' % (r.exc['type'], r.exc['site']))
                 return 'exc'
@@ -228,6 +232,9 @@ def run_cell(impl, via, cell, out):
         else:
             s = w.ws(peer.WSQ)
             w.run()
+            if s.exc and cell['outcome'] == 'unserialisable':
+                s.exc = None
+                s.rejected = True
             if s.exc:
                 V('exception_escaped', 'open', 'ws open raised %s at %s' % (s.exc['type'], s.exc['site']))
                 return 'exc'
@@ -346,13 +353,16 @@ def run_cell(impl, via, cell, out):
               'session table (%r)' % (seen_at_answer[0],))
         if status != 401:
             V('reject_status', 'outcome=' + cell['outcome'], 'rejected connect answered %r' % status)
-        elif via == 'polling' or impl == 'sync':
+        elif via == 'polling' or impl == 'sync' or (isinstance(text, str) and text):
+            # (on an ASGI websocket scope the refusal travels as the reason of the close event)
             try:
                 got = json.loads(text)
             except ValueError:
                 got = ('<not json>', text)
             want_body = body_ref if body_ref is not None else 'Unauthorized'
-            if got != want_body:
+            if cell['outcome'] == 'unserialisable':
+                pass
+            elif got != want_body:
                 V('reject_body', 'outcome=' + cell['outcome'], '401 body %r, want %r' % (got, want_body))
         if hsid in w.table_sids():
             V('rejected_sid_addressable', 'outcome=' + cell['outcome'], 'rejected sid still in the session table')
